@@ -174,13 +174,20 @@ def script_pair(spec):
     from ..net import (VLoop, install_clock, RecConn, Endpoint, FIXMessage, FMsg, FTag, Journaler, ConnectionState)
     from asyncfix.fix_tester import FIXTester
     script = spec["script"]
+    nin0, nout0 = spec.get("start", (1, 1))     # counters the initiator's journal holds from earlier connections
+
+    def jrn(sender, target, nin, nout):
+        j = Journaler()
+        if (nin, nout) != (1, 1):
+            j.set_seq_num(j.create_or_load(target, sender), next_num_out=nout, next_num_in=nin)
+        return j
 
     def app(tag):
         return FIXMessage(FMsg.NEWORDERSINGLE, {FTag.ClOrdID: tag})
 
     # --- (1) helper's acceptor
     loop = VLoop(); install_clock(loop)
-    ep = Endpoint(loop, "INIT", "ACC")
+    ep = Endpoint(loop, "INIT", "ACC", journaler=jrn("INIT", "ACC", nin0, nout0))
     conn = ep.conn
     conn._connection_state = ConnectionState.NETWORK_CONN_ESTABLISHED
     ft = FIXTester(schema=None, connection=conn)
@@ -221,8 +228,8 @@ def script_pair(spec):
     # --- (2) real acceptor endpoint over the fake link
     loop = VLoop(); install_clock(loop)
     chan = {"IA": [], "AI": []}
-    I = Endpoint(loop, "INIT", "ACC", sink=lambda b: chan["IA"].append(b))
-    A = Endpoint(loop, "ACC", "INIT", sink=lambda b: chan["AI"].append(b))
+    I = Endpoint(loop, "INIT", "ACC", sink=lambda b: chan["IA"].append(b), journaler=jrn("INIT", "ACC", nin0, nout0))
+    A = Endpoint(loop, "ACC", "INIT", sink=lambda b: chan["AI"].append(b), journaler=jrn("ACC", "INIT", nout0, nin0))
     b = []
 
     def pump():
@@ -353,7 +360,12 @@ def run(ctx):
     recs = pmap(execute, specs) + [session_factories(None)]
     scripts = [list(s) for L in range(0, (3 if q else 4) + 1) for s in itertools.product(ACTS, repeat=L)]
     ctx.log("(b) %d clean session scripts against the helper's acceptor and a real acceptor" % len(scripts))
-    recs += pmap(script_pair, [{"id": "s%d" % i, "script": s} for i, s in enumerate(scripts)])
+    # the same scripts on a session that has a past: the initiator's journal holds unequal counters from earlier connections
+    # (the real acceptor's journal holds the mirrored pair)
+    sspecs = [{"id": "s%d" % i, "script": s} for i, s in enumerate(scripts)]
+    sspecs += [{"id": "s%d.%d_%d" % (i, a, b), "script": s, "start": (a, b)}
+               for i, s in enumerate(scripts) if len(s) <= (2 if q else 3) for a, b in ((4, 5), (9, 3), (7, 7))]
+    recs += pmap(script_pair, sspecs)
     ms = multi_scripts(5 if q else 6)
     mspecs = [{"id": "m%d" % i, "script": s2} for i, s2 in enumerate(ms)]
     ctx.log("(c) %d interleavings of two orders registered with one helper" % len(ms))
@@ -363,7 +375,7 @@ def run(ctx):
             raise tlc.MachineryError("multi-order script failed in the harness: %s %s" % (mr["id"], mr["harness_error"]))
     recs += mrecs
     verd = tlc.evaluate(ctx.sub("eval"), "TesterEval", recs, shard_size=max(20, len(recs) // 16 + 1), jobs=16, env={"DICT_FILE": df}, timeout=2400, heap="4g")
-    allin = specs + [{"id": "session_factories"}] + [{"id": "s%d" % i, "script": s} for i, s in enumerate(scripts)] + mspecs
+    allin = specs + [{"id": "session_factories"}] + sspecs + mspecs
     for rec, v, sp in zip(recs, verd, allin):
         out.traces += 1
         out.clause_hits["fabricated_messages_judged"] = out.clause_hits.get("fabricated_messages_judged", 0) + v["n"]
@@ -390,7 +402,7 @@ def run(ctx):
             out.failures.append({"clause": f["clause"], "triggers": [], "input": sp, "detail": det, "trace": None})
     out.samples = [{"id": recs[0]["id"], "steps": len(recs[0]["steps"])}, {"script": scripts[-1]}]
     out.exhaustive = True
-    out.extra.update({"order_histories": len(specs), "session_scripts": len(scripts)})
+    out.extra.update({"order_histories": len(specs), "session_scripts": len(sspecs)})
     out.assumptions = ["FIXTester is used without a schema: validity is decided by the TLA+ oracle over the independently translated FIX44 dictionary",
                        "clean scripts = atomic exchanges (each send is delivered before the next), as the helper's acceptor has no in-flight queue towards the initiator"]
     return out
